@@ -134,6 +134,8 @@ def run(ctx):
                 return 'cli.ValidateFlags accepts the output format %r, which neither binary/spdx nor binary/cdx can write (WriteScanResults: %s)' % (fmt, st)
             if fi.get('created') == '1':
                 return 'WriteScanResults created a file for the unknown output format %r' % fmt
+            if fi.get('wr') == '0':
+                return 'the writer (binary/spdx Write23 / binary/cdx Write) accepted the unknown output format %r' % fmt
             return None
         if fi.get('vf') == '0' or st == 'flag-rejected':
             if 'cfg4' in opts:
